@@ -345,6 +345,44 @@ func c17HeldLoop(order string, ek int, unheld bool) pxScenario {
 		Tags: []string{"held-loop", "order=" + order, fmt.Sprintf("serve-loop-held=%v", !unheld), fmt.Sprintf("err=%d", ek)}}
 }
 
+// a stuck peer whose queue is full, then MORE envelopes for it of every kind (plain body, trailer, status + trailer,
+// reset, trailer + reset), each one in the same step as live traffic between two healthy peers: the live traffic must be
+// handed over within the step, without virtual time passing (the rig observes before it lets the clock advance)
+func c17StuckKinds(conc bool, variant int) pxScenario {
+	b := &pxBuilder{tok: 100}
+	b.add(att(1)...)
+	b.add(att(2)...)
+	b.add(att(3)...)
+	b.add(PAct{Op: "setw", N: 3, M: "block"})
+	for i := 0; i < 17; i++ { // one in the blocked Write, sixteen in the queue
+		b.add(b.send(int64(1+i%2), 3))
+	}
+	shapes := []int{0, 12, 4 + 24, 36, 12 + 36, 1 + 24, 1 + 36} // body; trailer; status+trailer; reset; trailer+reset; no body ...
+	for k, sh := range shapes {
+		a := b.send(int64(1+(k+variant)%2), 3)
+		a.Shape = sh
+		live := b.send(int64(2-(k+variant)%2), int64(1+(k+variant)%2)) // the other healthy peer talks to the sender
+		if variant >= 2 {
+			// the sender itself goes on talking to the other healthy peer: its read loop offers the two in order
+			live = b.send(int64(1+(k+variant)%2), int64(2-(k+variant)%2))
+		}
+		if conc {
+			b.add(a, live)
+		} else {
+			b.add(a)
+			b.add(live)
+		}
+		if k%3 == 2 {
+			b.add(b.send(1, 2), b.send(2, 1))
+		}
+	}
+	b.add(PAct{Op: "setw", N: 3, M: "ok"})
+	b.add(b.send(1, 3))
+	b.add(b.send(2, 1))
+	return pxScenario{Icp: 0, ByRef: variant%2 == 0, Steps: b.steps,
+		Tags: []string{"stuck-kinds", fmt.Sprintf("overflow-with-live-traffic-in-one-step=%v", conc)}}
+}
+
 // the dial-error role with every error value (and the name dialled again)
 func c17DialErr(ek int) pxScenario {
 	b := &pxBuilder{tok: 100}
@@ -482,6 +520,11 @@ func c17Scenarios() []pxScenario {
 			for rep := 0; rep < 2; rep++ { // the unheld variant depends on the schedule: repeated
 				out = append(out, c17HeldLoop(order, ek, true))
 			}
+		}
+	}
+	for _, conc := range []bool{false, true} {
+		for v := 0; v < 4; v++ {
+			out = append(out, c17StuckKinds(conc, v))
 		}
 	}
 	for _, n := range []int{1, 2, 3, 4, 5, 8, 9, 16, 17} {
